@@ -19,8 +19,8 @@ UMAX = 2 ** 64 - 1
 LASTP = 18446744073709551557      # largest prime below 2^64
 SIEVE_CAP = 10 ** 14              # PcModel/IterExec.lean sieveCap
 
-RULE = ("`it`: (a) EXHAUSTIVE: every start <= 300 (thorough 800: the whole smallPrimes table) x every script over {n,p} of "
-        "length <= 4 (quick) / 5, plus every start <= 800 with hinted scripts; (b) structured starts {0..100, 719+-3, 2^32+-, "
+RULE = ("`it`: (a) EXHAUSTIVE: every start <= 120 (thorough 800: the whole smallPrimes table) x every script over {n,p} of "
+        "length <= 4 (quick) / 5, plus every 5th (thorough: every) start <= 800 with hinted scripts; (b) structured starts {0..100, 719+-3, 2^32+-, "
         "2^48+-, 10^12, 10^13, 2^62+-, 2^63+-, p*q of two 32-bit primes +-, 2^64-2^33+-, the last primes below 2^64} x stop "
         "hints {UINT64_MAX, 0, < start, = start, start + small, start + 10^4, far above} x scripts {runs n*K / p*K, random "
         "interleavings with direction changes right after a refill, at i_ = 0 and i_ = size_-1, after jump_to, g / G calls}; "
@@ -113,6 +113,11 @@ def structured_starts(rng, quick):
 
 
 def big_starts(rng, quick):
+    if quick:      # every refill up there costs the real code 1-2 s: one start per region
+        pq = _prime32(rng) * _prime32(rng)
+        while pq >= UMAX - 2 ** 34:
+            pq = _prime32(rng) * _prime32(rng)
+        return sorted((2 ** 62 + rng.randint(-10 ** 6, 10 ** 6), 2 ** 63 - 1, pq - 1, 2 ** 64 - 2 ** 33 - rng.randint(2, 10 ** 6)))
     s = set()
     for c in (2 ** 48, 2 ** 62, 2 ** 63):
         s.update((c - 1, c + rng.randint(-10 ** 6, 10 ** 6)) if quick else (c - 1, c, c + 1, c + rng.randint(-10 ** 6, 10 ** 6)))
@@ -128,7 +133,7 @@ def it_ops(ctx):
     rng, q = ctx.rng, ctx.quick
     ex, st, big, end = [], [], [], []
     # (a) exhaustive small scope
-    top = 300 if q else 800
+    top = 120 if q else 800
     maxlen = 4 if q else 5
     scripts = []
     for L in range(1, maxlen + 1):
@@ -137,22 +142,26 @@ def it_ops(ctx):
     for s0 in range(top + 1):
         for sc in scripts:
             ex.append("it %s %d %d %s" % ("w" if (s0 + len(sc)) % 3 == 0 else "v", s0, UMAX, sc))
-    for s0 in range(0, 801):
+    for s0 in range(0, 801, 5 if q else 1):
         h = rng.choice(hints(rng, s0))
         ex.append("it w %d %d %s" % (s0, h, " ".join(rand_script(rng, 40))))
     # (b) structured starts x hints x scripts
     def jumps(r):
         a = r.choice((0, 1, 2, 3, 100, 719, 720, 721, r.randint(0, 10 ** 6), r.randint(0, 10 ** 10)))
         return a, r.choice(hints(r, a))
-    for s0 in structured_starts(rng, q):
+    sstarts = structured_starts(rng, q)
+    if q:      # quick: every 4th small start, all boundary starts, few big ones (model cost grows with sqrt(start))
+        sstarts = [x for x in sstarts if (x <= 100 and x % 4 == 0) or 100 < x <= 10 ** 10] + \
+                  rng.sample([x for x in sstarts if x > 10 ** 10], 3)
+    for s0 in sstarts:
         hs = hints(rng, s0)
-        for h in (hs if (s0 <= 100 and s0 % 10 == 0) or (s0 > 100 and not q) else rng.sample(hs, 2 if s0 <= 100 else 4)):
+        for h in (hs if not q else rng.sample(hs, 2)):
             mode = rng.choice("vw")
             # the model's buffer is a List (indexing costs O(i_)): keep runs short where backward windows hold 10^5 primes
-            maxrun = 1500 if s0 < 10 ** 8 else 60 if s0 < 10 ** 11 else 25
+            maxrun = (300 if q else 1500) if s0 < 10 ** 8 else 60 if s0 < 10 ** 11 else 25
             st.append("it %s %d %d %s" % (mode, s0, h, " ".join(rand_script(rng, maxrun, jumps=jumps))))
     # buffer ends: walk exactly one batch (size known only at run time: long runs cross several refills), then turn around
-    for s0 in (0, 1000, 10 ** 6, 2 ** 32 - 5000):
+    for s0 in ((0, 10 ** 6) if q else (0, 1000, 10 ** 6, 2 ** 32 - 5000)):
         st.append("it w %d %d n*1030 p*3 n*5 p*1100 n*3" % (s0, UMAX))
         st.append("it w %d %d p*3 n*5 p*40 n*2000 p*2001 n" % (s0 + 10 ** 5, UMAX))
         st.append("it v %d %d g g n p p G p n" % (s0, s0 + 50000))
@@ -171,13 +180,16 @@ def it_ops(ctx):
         k = rng.randint(1, 12)
         bwd = "it w %d %d p*%d n*%d p p" % (s0, dn, k, rng.randint(1, 20))
         big += [fwd, bwd] if not q else [rng.choice((fwd, bwd))]      # every refill up there costs the real code 1-2 s
-        if rng.random() < (0.25 if q else 1.0):
+        if not q:
             big.append("it v %d %d n*%d p n g" % (s0, UMAX, rng.randint(1, 40)))
     big.append("it v %d %d n*2500 p*600" % (2 ** 48, UMAX))               # same, where one window holds 5e5 primes
     if not q:
         big.append("it v %d %d p*3 n*4" % (2 ** 48 + 12345, UMAX))          # unhinted prev: window of 3.3e7 numbers
     # (d) the end of the 64-bit range
-    for s0 in ((LASTP - 200, LASTP, LASTP + 1, UMAX) if q else (LASTP - 200, LASTP - 1, LASTP, LASTP + 1, UMAX - 1, UMAX)):
+    if q:
+        end += ["it v %d %d n*12" % (LASTP - 200, UMAX), "it w %d %d n n p" % (LASTP, UMAX - 1),
+                "it v %d %d p*4 n*8" % (UMAX, UMAX - 500), "it v %d %d n" % (LASTP + 1, UMAX)]
+    for s0 in (() if q else (LASTP - 200, LASTP - 1, LASTP, LASTP + 1, UMAX - 1, UMAX)):
         end.append("it v %d %d n*12" % (s0, UMAX))
         end.append("it w %d %d n n p" % (s0, UMAX - 1))
         end.append("it v %d %d p*4 n*8" % (s0, max(0, s0 - 500)))
@@ -239,8 +251,16 @@ def count_ops(ctx):
     for a in range(0, 9):
         for b in (0, 1, 2, 3, 4, 5, 6, 7, 8, 10, 11, 13, 17, 18, 30, 100):
             ops.append("pscount %d %d %d" % (a, b, rng.choice((1, 2, 5, 16))))
-    for t in (1, 2, 5, 16):
-        ops.append("pscount 0 %d %d" % (10 ** 8 if q else 10 ** 9, t))
+    if q:
+        ops.append("pscount 0 100000000 16")
+        a = rng.randint(0, 10 ** 9)
+        ops.append("pscount %d %d 2" % (a, a + rng.randint(2 * 10 ** 7, 3 * 10 ** 7)))
+        a = rng.randint(10 ** 11, 10 ** 12)
+        ops.append("pscount %d %d 5" % (a, a + 2 * 10 ** 7 + rng.randint(0, 10 ** 6)))
+        ops.append("pscount 5 %d 1" % (2 * 10 ** 7 + rng.randint(0, 10 ** 6)))
+    for t in (() if q else (1, 2, 5, 16)):
+        ops.append("pscount 0 %d %d" % (10 ** 9, t))
+        ops.append("pscount 0 %d %d" % (10 ** 8, t))
         a = rng.randint(0, 10 ** 9)
         ops.append("pscount %d %d %d" % (a, a + rng.randint(2 * 10 ** 7, 6 * 10 ** 7), t))
         a = rng.randint(10 ** 11, 10 ** 12)
@@ -284,14 +304,15 @@ def gen_ops(ctx):
     for ty, vmax in (("u32", 2 ** 32 - 1), ("i32", 2 ** 31 - 1), ("i64", 2 ** 63 - 1)):
         for b in (vmax - 1, vmax, vmax + 1):
             ops.append("psgen %s %d %d" % (ty, max(0, b - 3000), b))
-    for b in (LASTP - 1, LASTP, LASTP + 1, UMAX - 1, UMAX):
+    for b in ((LASTP - 1, LASTP) if q else (LASTP - 1, LASTP, LASTP + 1, UMAX - 1, UMAX)):
         ops.append("psgen u64 %d %d" % (LASTP - 3000, b))
-        ops.append("psgen u64 %d %d" % (b, UMAX))
+        if not q or b == LASTP:
+            ops.append("psgen u64 %d %d" % (b, UMAX))
     for _ in range(40 if q else 400):
         a = int(math.exp(rng.uniform(0, math.log(10 ** 13))))
         ops.append("psgen u64 %d %d" % (a, a + rng.randint(0, 3 * 10 ** 5)))
-    ops.append("psgen u64 0 %d" % (3 * 10 ** 6 if q else 5 * 10 ** 7))
-    for s0 in (2 ** 62 + 5, 2 ** 63 - 1000, 2 ** 64 - 2 ** 33 - 9):
+    ops.append("psgen u64 0 %d" % (10 ** 6 if q else 5 * 10 ** 7))
+    for s0 in ((2 ** 63 - 1000,) if q else (2 ** 62 + 5, 2 ** 63 - 1000, 2 ** 64 - 2 ** 33 - 9)):
         ops.append("psgen u64 %d %d" % (s0, s0 + 2000))
     return ops
 
@@ -313,7 +334,7 @@ def genn_ops(ctx):
             ops.append("psgenn %s %d %d" % (ty, n, vmax - 1000))
     for _ in range(30 if q else 300):
         ops.append("psgenn u64 %d %d" % (rng.randint(1, 20000), int(math.exp(rng.uniform(0, math.log(10 ** 13))))))
-    for s0 in (2 ** 62 + 5, 2 ** 63 - 1000, 2 ** 64 - 2 ** 33 - 9):
+    for s0 in ((2 ** 62 + 5,) if q else (2 ** 62 + 5, 2 ** 63 - 1000, 2 ** 64 - 2 ** 33 - 9)):
         ops.append("psgenn u64 %d %d" % (rng.randint(1, 30), s0))
     ops.append("psgenn u64 3 %d" % (LASTP - 200))
     return ops
@@ -341,16 +362,16 @@ def nth_ops(ctx):
 def streams(ctx):
     ex, st, big, end = it_ops(ctx)
     sts = [it_stream("it-exhaustive", ex), it_stream("it-structured", st),
-           it_stream("it-large", big, timeout=3000, env={"PCV_OP_TIMEOUT": "120"}), it_stream("it-end-of-range", end)]
+           it_stream("it-large", big, timeout=3000, env={"PCV_OP_TIMEOUT": "300"}), it_stream("it-end-of-range", end, timeout=3000, env={"PCV_OP_TIMEOUT": "300"})]
     sts.append(Stream("ps-count", count_ops(ctx), oracle=True, timeout=3000, env={"PCV_OP_TIMEOUT": "300"},
                       classify=lambda o, r: "threads=" + o.split()[3]))
     sts.append(Stream("ps-intervals", interval_ops(ctx), oracle=False,
                       classify=lambda o, r: "1-interval" if " " not in r else "n-intervals"))
-    sts.append(Stream("ps-generate", gen_ops(ctx), oracle=True, classify=lambda o, r: o.split()[1] + (":err" if r.startswith("ERR") else "")))
+    sts.append(Stream("ps-generate", gen_ops(ctx), oracle=True, timeout=3000, env={"PCV_OP_TIMEOUT": "300"}, classify=lambda o, r: o.split()[1] + (":err" if r.startswith("ERR") else "")))
 
     def genn_model(ops_, impl):
         return ["%s %d" % (o, nth_hint(int(o.split()[2]), int(o.split()[3]))) for o in ops_]
-    sts.append(Stream("ps-generate-n", genn_ops(ctx), oracle=True, model_ops=genn_model,
+    sts.append(Stream("ps-generate-n", genn_ops(ctx), oracle=True, model_ops=genn_model, timeout=3000, env={"PCV_OP_TIMEOUT": "300"},
                       classify=lambda o, r: o.split()[1] + (":err" if r.startswith("ERR") else "")))
 
     def nth_model(ops_, impl):
@@ -368,7 +389,7 @@ def streams(ctx):
             if a.split()[:1] != [b]:
                 dis.append(dict(index=i, op=o, impl=a, model=b))
         return dis
-    sts.append(Stream("ps-nth", nth_ops(ctx), oracle=True, model_ops=nth_model, judge=nth_judge,
+    sts.append(Stream("ps-nth", nth_ops(ctx), oracle=True, model_ops=nth_model, judge=nth_judge, timeout=3000, env={"PCV_OP_TIMEOUT": "300"},
                       classify=lambda o, r: ("neg" if o.split()[1].startswith("-") else "pos") + (":err" if r.startswith("ERR") else "")))
     pc = ["pcgen %d" % m for m in (0, 1, 2, 3, 10, 100, 719, 720, 10 ** 4, 10 ** 6, ctx.rng.randint(10, 10 ** 6))]
     pcn = ["pcgenn %d" % n for n in (0, 1, 2, 10, 128, 129, 1024, 1025, 10 ** 4, ctx.rng.randint(1, 10 ** 5))]
